@@ -57,7 +57,7 @@ type Case struct {
 	Sinks   []Sink `json:"sinks"`
 	Events  []Ev   `json:"events"`
 	Workers int    `json:"workers"`
-	Relay   bool   `json:"relay"`  // events are sent to a relay sink which re-adds them with addEvent (cascade)
+	Relay   bool   `json:"relay"`         // events are sent to a relay sink which re-adds them with addEvent (cascade)
 	Fan     int    `json:"fan,omitempty"` // > 1: events are sent in groups of this size to a fan-out sink which adds them as child events of ONE cascade (same root monitor)
 	Feeders int    `json:"feeders"`
 }
@@ -90,7 +90,8 @@ func program(c Case) string {
 	var b strings.Builder
 	// the shared function has container literals as defaults and changes them in place: every call must start
 	// from the literal again (its result is 2x + 1 only then)
-	b.WriteString("total := 0\nfunc helper(x, ctx={\"v\" : 0}, lst=[0]) {\n    ctx.v := ctx.v + x\n    lst[0] := lst[0] + x\n    let y := x * 2\n    return y + 1 + ctx.v - x + lst[0] - x\n}\n")
+	// (and a number default whose name is also the name of an unrelated global: the parameter is a local of each call)
+	b.WriteString("total := 0\ngsum := 0 - 1\nfunc helper(x, ctx={\"v\" : 0}, lst=[0], gsum=0) {\n    ctx.v := ctx.v + x\n    lst[0] := lst[0] + x\n    for k in range(1, 3) {\n        gsum := gsum + x\n    }\n    let y := x * 2\n    return y + 1 + ctx.v - x + lst[0] - x + gsum - 3 * x\n}\n")
 	for i, s := range c.Sinks {
 		name := fmt.Sprintf("s%d", i)
 		fmt.Fprintf(&b, "sink %s\n    kindmatch [ \"%s\" ],\n    priority %d\n{\n", name, s.Pattern, s.Priority)
@@ -447,6 +448,9 @@ func runCase(c Case) (fail *hx.Failure) {
 				}
 			}
 		}
+	}
+	if v, _, _ := vs.GetValue("gsum"); v != float64(-1) {
+		return hx.Failf("global-clobbered", "the global gsum is %v at the end (it is set to -1 once and never assigned again; helper has a PARAMETER of that name with a default)", v)
 	}
 	if v, _, _ := vs.GetValue("total"); v != float64(wantTotal) {
 		return hx.Failf("global-update-lost", "total is %v after %d mutex-protected increments", v, wantTotal)
